@@ -22,9 +22,7 @@ inductive R (α : Type) where
 
 /-! ### strip_whitespace : `str::trim` -/
 
-def dropWs : List Nat → List Nat
-  | [] => []
-  | c :: cs => if isWhitespace c then dropWs cs else c :: cs
+def dropWs (cs : List Nat) : List Nat := cs.dropWhile isWhitespace
 
 def trimCp (cs : List Nat) : List Nat := (dropWs (dropWs cs).reverse).reverse
 
